@@ -32,6 +32,32 @@ func VxC02_Reentry_From4()   { vxReentry("SELECT * FROM", VxStmtTable, 4) }
 func VxC02_Reentry_Join4()   { vxReentry("SELECT * FROM t JOIN", VxStmtTable, 4) }
 func VxC02_Reentry_Where4()  { vxReentry("SELECT a FROM t WHERE", VxStmtTable, 4) }
 
+// C02-A': every recursion cycle enforces the limit. Started at or above the documented limit, no
+// *Parser method may be re-entered while active: a completed cycle means its increment was not
+// followed by a limit check (nesting through that cycle is counted but unbounded).
+func vxReentryLimited(prefix string, tab *VxTable, maxK int) {
+	toks := append([]token.Token{}, VxFixed(prefix)...)
+	toks = append(toks, tab.Toks(maxK)...)
+	toks = append(toks, VxEOF)
+	VxNoteToks(toks)
+	p := NewParser()
+	p.depth = 97 + vx.Small(6) // 97..99: re-entries are legal (reachability witness of the assertion); 100..102: none may complete
+	vx.WatchReentryAll("Parser", "depth", "C02.reentry_accounted")
+	vx.ReentryLimit(100, "C02.reentry_limited")
+	_, _ = p.Parse(toks)
+}
+
+func VxC02_Limited_Start3()  { vxReentryLimited("", VxStmtTable, 3) }
+func VxC02_Limited_Select3() { vxReentryLimited("SELECT", VxStmtTable, 3) }
+func VxC02_Limited_From3()   { vxReentryLimited("SELECT * FROM", VxStmtTable, 3) }
+func VxC02_Limited_Join3()   { vxReentryLimited("SELECT * FROM t JOIN", VxStmtTable, 3) }
+func VxC02_Limited_Where3()  { vxReentryLimited("SELECT a FROM t WHERE", VxStmtTable, 3) }
+func VxC02_Limited_Start4()  { vxReentryLimited("", VxStmtTable, 4) }
+func VxC02_Limited_Select4() { vxReentryLimited("SELECT", VxStmtTable, 4) }
+func VxC02_Limited_From4()   { vxReentryLimited("SELECT * FROM", VxStmtTable, 4) }
+func VxC02_Limited_Join4()   { vxReentryLimited("SELECT * FROM t JOIN", VxStmtTable, 4) }
+func VxC02_Limited_Where4()  { vxReentryLimited("SELECT a FROM t WHERE", VxStmtTable, 4) }
+
 // C02-B: the documented limit (100) is enforced exactly, for every current depth.
 func VxC02_DepthLimit() {
 	p := NewParser()
